@@ -11,7 +11,9 @@ import (
 )
 
 var atoms = []string{".config", ".fullname", ".name", "/p", "/q", "/gomaxprocs", "k0", "k1", "k2", "i", ".file", ".config", ".fullname"}
-var cvals = []string{"v1", "v2", "x y", "", "v1"}
+// values incl. leading/trailing blanks and tabs, inner blanks, whitespace-only values: a value is
+// kept byte for byte ("Xeon " is not "Xeon")
+var cvals = []string{"v1", "v2", "x y", "", "v1", "v1 ", " v1", "v1\t", "v2 ", " ", "\t", "x  y", "  ", "v1  "}
 
 func genExpr(r *hx.Rand) []SpecT {
 	n := 1 + r.Intn(3)
@@ -37,7 +39,9 @@ func genName(r *hx.Rand) string {
 	for j := r.Intn(4); j > 0; j-- {
 		name += "/" + hx.Pick(r, []string{"p=1", "p=2", "q=1", "q=x", "gomaxprocs=4", "z", "p=", "r=7",
 			// dashes inside values and non-numeric dash tails (only a trailing -digits is GOMAXPROCS)
-			"p=en-US", "p=en-GB", "q=1-2", "q=a-b-c", "p=-", "r=7-x", "z-9"})
+			"p=en-US", "p=en-GB", "q=1-2", "q=a-b-c", "p=-", "r=7-x", "z-9",
+			// blanks in name values (API-built results)
+			"p=1 ", "p= 1", "q=x\t", "q= ", "p=1  2"})
 	}
 	switch r.Intn(8) {
 	case 0:
@@ -79,7 +83,7 @@ func genResult(r *hx.Rand, i int) ResT {
 	}
 	if r.Chance(1, 3) {
 		// … and vice versa: mostly internal, sometimes a file key
-		res.Cfg = append(res.Cfg, CfgT{"i", hx.Pick(r, cvals[:3]), r.Chance(1, 4)})
+		res.Cfg = append(res.Cfg, CfgT{"i", hx.Pick(r, []string{"v1", "v2", "x y", "v1 ", " v2"}), r.Chance(1, 4)})
 	}
 	if r.Chance(1, 3) {
 		res.Cfg = append(res.Cfg, CfgT{".file", hx.Pick(r, []string{"a.txt", "b.txt"}), false})
@@ -90,7 +94,7 @@ func genResult(r *hx.Rand, i int) ResT {
 	}
 	res.Units = []string{hx.Pick(r, []string{"ns/op", "ns/op", "B/op"})}
 	for j := r.Intn(3); j > 0; j-- {
-		res.Units = append(res.Units, hx.Pick(r, []string{"ns/op", "B/op", "allocs/op"}))
+		res.Units = append(res.Units, hx.Pick(r, []string{"ns/op", "B/op", "allocs/op", "ns/op ", " B/op"}))
 	}
 	return res
 }
@@ -243,6 +247,57 @@ func konly(r *hx.Rand, b base) Scenario {
 	return sc
 }
 
+// genCollide: tuples whose CONCATENATIONS coincide although the tuples differ — ("1","10") vs
+// ("11","0"), ("x","") vs ("","x") — over two or three fields (specific keys and/or a .config group):
+// the row hash runs the values together, so these meet in one hash bucket and only the row
+// comparison keeps them apart.
+func genCollide(r *hx.Rand) Scenario {
+	word := hx.Pick(r, []string{"110", "xx", "abab", "1 1", "v1v1"})
+	var tuples [][]string
+	nf := 2 + r.Intn(2)
+	var rec func(rest string, left int, cur []string)
+	rec = func(rest string, left int, cur []string) {
+		if left == 1 {
+			tuples = append(tuples, append(append([]string(nil), cur...), rest))
+			return
+		}
+		for i := 0; i <= len(rest); i++ {
+			rec(rest[i:], left-1, append(cur, rest[:i]))
+		}
+	}
+	rec(word, nf, nil)
+	keys := []string{"k0", "k1", "k2"}[:nf]
+	sc := Scenario{S: true, Tags: []string{"collide"}}
+	var specs []SpecT
+	specific := r.Intn(3) // 0: all in .config, 1: k0 specific, 2: all specific
+	for i, k := range keys {
+		if specific == 2 || (specific == 1 && i == 0) {
+			specs = append(specs, SpecT{Key: k, Order: "first"})
+		}
+	}
+	if specific != 2 {
+		specs = append(specs, SpecT{Key: ".config", Order: "first"})
+	}
+	sc.Ops = append(sc.Ops, Op{Kind: 'P', Specs: specs}, Op{Kind: 'R'})
+	for i := len(tuples) - 1; i > 0; i-- {
+		j := r.Intn(i + 1)
+		tuples[i], tuples[j] = tuples[j], tuples[i]
+	}
+	if len(tuples) > 9 {
+		tuples = tuples[:9]
+	}
+	for _, t := range tuples {
+		res := ResT{Name: "B", Units: []string{"ns/op"}}
+		for i, k := range keys {
+			if t[i] != "" {
+				res.Cfg = append(res.Cfg, CfgT{k, t[i], true})
+			}
+		}
+		sc.Ops = append(sc.Ops, Op{Kind: 'A', Res: res})
+	}
+	return sc
+}
+
 func main() {
 	defer hx.Flush()
 	r := hx.NewRand(8)
@@ -271,6 +326,9 @@ func main() {
 			emit(scenarioOf(b, perm, residue, tag))
 		})
 		emit(konly(r, b))
+		if i%10 == 3 {
+			emit(genCollide(r))
+		}
 		if i%3 == 0 {
 			// the same results streamed through a real benchfmt.Reader and projected without Clone
 			perm := make([]int, len(b.exprs))
